@@ -98,7 +98,8 @@ impl Driver for C04 {
         let models = unit_models(&mut rng, 10, true);
         let mut case = 0usize;
         for (spec, origin) in &models {
-            let lm = spec.to_rooc();
+            // a third of the models carry their domain map in another order than their column list
+            let lm = if rng.gen_range(0..3) == 0 { spec.to_rooc_domain_shuffled(&mut rng) } else { spec.to_rooc() };
             let xl = XLin::from_rooc(&lm).ok();
             for solver in SOLVERS {
                 let this = case;
@@ -132,7 +133,7 @@ impl Driver for C04 {
                             Err((class, what)) => {
                                 let truth = solve_milp(&xl.to_lp(), 50_000).map(|(a, _)| a.kind()).unwrap_or("undecided");
                                 let sig = if solver == "tableau" && spec.coefficient_range() == "wide" {
-                                    "tableau-simplex-unreliable-on-wide-coefficient-range(spread>=50)".to_string()
+                                    "tableau-simplex-unreliable-on-wide-coefficient-range(spread>=50 or min<=0.05)".to_string()
                                 } else if solver == "clarabel" && truth == "unbounded" {
                                     "clarabel:solution-returned-for-unbounded-model".to_string()
                                 } else if solver == "clarabel" && truth == "infeasible" && sol.values.iter().any(|v| v.abs() >= 1e6) {
@@ -265,7 +266,8 @@ impl Driver for C05 {
         let models = unit_models(&mut rng, 10, false);
         let mut case = 0usize;
         for (spec, origin) in &models {
-            let lm = spec.to_rooc();
+            // a third of the models carry their domain map in another order than their column list
+            let lm = if rng.gen_range(0..3) == 0 { spec.to_rooc_domain_shuffled(&mut rng) } else { spec.to_rooc() };
             let xl = XLin::from_rooc(&lm).ok();
             let mut oracle: Option<Result<LpAnswer, String>> = None;
             for solver in SOLVERS {
@@ -347,6 +349,12 @@ impl Driver for C05 {
                                 }
                             } {
                                 out.inconclusive("optimal value differs only within the 1e-6 tolerance band");
+                            } else if solver == "clarabel" && got.as_ref().is_some_and(|g| (g - value).abs() <= pow10_neg(4) * qmax(&one(), &value.abs())) {
+                                out.violation(
+                                    "clarabel:optimal-value-off-by-1e-6..1e-4(relative)",
+                                    &format!("clarabel reports optimum {} but the certified optimum is {}", sol.value, show(value)),
+                                    detail(sol_json(sol)),
+                                );
                             } else {
                                 out.violation(
                                     &format!("{solver}:wrong-optimal-value({pre})"),
